@@ -5,7 +5,9 @@ package neo3_state_manager
 import "github.com/polynetwork/poly/native"
 
 // C17 replay accessors: thin exports of the unexported storage helpers (no logic).
-func VerifC17PutStateValidators(n *native.NativeService, l []string) error { return putStateValidators(n, l) }
+func VerifC17PutStateValidators(n *native.NativeService, l []string) error {
+	return putStateValidators(n, l)
+}
 func VerifC17PutStateValidatorApply(n *native.NativeService, p *StateValidatorListParam) error {
 	return putStateValidatorApply(n, p)
 }
